@@ -117,4 +117,3 @@ func CollectAccesses(c *Ctx) []Access {
 	})
 	return out
 }
-
